@@ -402,3 +402,67 @@ def rule_reinit(ctx: Ctx, prog: Program) -> None:
                           f"Solver.__init__ has a path with a problem on which problem.init() is called {len(inits)} time(s): the arrays derived from "
                           "the propagator list (wake-up table, per-constraint caches) must be rebuilt for every solver, whatever state an earlier solver left")
     ctx.floor("R-REINIT:paths-with-problem", n, 1)
+
+
+def unsigned_roles(prog: Program) -> Dict[str, str]:
+    """Engine arrays with an unsigned element type, read off their allocation (self.<attr> = np.<ctor>(..., dtype=np.uintN))."""
+    out: Dict[str, str] = {}
+    for f in prog.all_functions():
+        if f.name not in ("__init__", "init"):
+            continue
+        for n in ast.walk(f.node):
+            if isinstance(n, ast.Assign) and len(n.targets) == 1 and isinstance(n.targets[0], ast.Attribute) and isinstance(n.value, ast.Call):
+                for kw in n.value.keywords:
+                    if kw.arg == "dtype" and ast.unparse(kw.value).split(".")[-1].startswith("uint"):
+                        out[n.targets[0].attr] = ast.unparse(kw.value).split(".")[-1]
+    return out
+
+
+def rule_mode_arith(ctx: Ctx, prog: Program) -> None:
+    """R-MODE-ARITH.  `u - k` with u read from an unsigned engine array is computed in int64 by Numba (compiled mode) and in the array's own
+    unsigned type by NumPy (interpreted mode, NEP 50): where the mathematical result is negative the two modes disagree (-1 vs 255).  A test
+    of such a difference against a negative value / `< 0` states the belief that it can be negative -- in interpreted mode it cannot: the
+    branch is dead there and alive when compiled.  (In-place updates `a[i] -= k` wrap identically in both modes and are not concerned.)"""
+    ctx.rule("R-MODE-ARITH")
+    roles = get_roles(prog)
+    uns = unsigned_roles(prog)
+    if len(uns) < 5:
+        raise AnalysisError(f"unsigned engine arrays not found (got {sorted(uns)})")
+    n_diff = 0
+    for f in prog.all_functions():
+        if f.module.endswith("__main__") or ".examples." in f.module:
+            continue
+        uparams = {p for p in f.params if any(r in uns for r in roles.of(f, p))}
+        if not uparams:
+            continue
+
+        def is_unsigned_load(e: ast.expr) -> bool:
+            return isinstance(e, ast.Subscript) and _base_name(e) in uparams
+
+        derived: Dict[str, int] = {}
+        for n in ast.walk(f.node):
+            if isinstance(n, ast.Assign) and len(n.targets) == 1 and isinstance(n.targets[0], ast.Name) and isinstance(n.value, ast.BinOp) \
+                    and isinstance(n.value.op, ast.Sub) and is_unsigned_load(n.value.left):
+                derived[n.targets[0].id] = n.lineno
+                n_diff += 1
+            if isinstance(n, ast.BinOp) and isinstance(n.op, ast.Sub) and is_unsigned_load(n.left):
+                n_diff += 0
+        for n in ast.walk(f.node):
+            if not (isinstance(n, ast.Compare) and len(n.ops) == 1):
+                continue
+            l, r = n.left, n.comparators[0]
+            op = type(n.ops[0])
+            for a, b, o in ((l, r, op), (r, l, {ast.Lt: ast.Gt, ast.LtE: ast.GtE, ast.Gt: ast.Lt, ast.GtE: ast.LtE}.get(op, op))):
+                is_diff = (isinstance(a, ast.Name) and a.id in derived) or (isinstance(a, ast.BinOp) and isinstance(a.op, ast.Sub) and is_unsigned_load(a.left))
+                cv = prog.fold(f.module, b) if isinstance(b, (ast.Constant, ast.UnaryOp, ast.Name)) else None
+                if not is_diff or not isinstance(cv, int) or isinstance(cv, bool):
+                    continue
+                negative_test = (o is ast.Lt and cv <= 0) or (o is ast.LtE and cv < 0) or (o in (ast.Eq, ast.NotEq) and cv < 0) or \
+                                (o is ast.GtE and cv <= 0) or (o is ast.Gt and cv < 0)
+                if negative_test:
+                    ctx.violation("R-MODE-ARITH", f.path, f.qualname, f"negative-test:{ast.unparse(a)[:40]}", f"{f.path}:{n.lineno}",
+                                  f"{f.qualname} tests `{ast.unparse(n)}` where `{ast.unparse(a)}` is a difference whose left operand is read from an unsigned "
+                                  f"engine array ({', '.join(sorted(uparams))}): compiled code computes it in int64 (can be negative), interpreted code keeps the "
+                                  "unsigned type (wraps to a large positive value) -- the two execution modes take different branches")
+    ctx.ok("R-MODE-ARITH", f"no test of an unsigned difference against a negative value ({len(uns)} unsigned engine arrays, {n_diff} differences stored)",
+           sample={"unsigned_arrays": uns})
